@@ -134,6 +134,11 @@ def ground_axioms(exprs, extra_rounds=1):
     for e in args_of("pow"):
         b, p = e.arg(0), e.arg(1)
         ax.append(z3.Implies(b > 0, e > 0))
+        ax.append(z3.Implies(z3.And(b == 0, p > 0), e == 0))
+        ax.append(z3.Implies(z3.And(b > 1, p > 0), e > 1))
+        ax.append(z3.Implies(z3.And(b > 0, b < 1, p > 0), e < 1))
+        ax.append(z3.Implies(z3.And(b > 1, p < 0), e < 1))
+        ax.append(z3.Implies(z3.And(b > 0, b < 1, p < 0), e > 1))
         ax.append(z3.Implies(p == 0, e == 1))
         ax.append(z3.Implies(b == 1, e == 1))
         ax.append(z3.Implies(p == 1, e == b))
@@ -143,8 +148,8 @@ def ground_axioms(exprs, extra_rounds=1):
             b1, p1, b2, p2 = L[i].arg(0), L[i].arg(1), L[j].arg(0), L[j].arg(1)
             same_p = p1 == p2
             # monotone in base for fixed exponent sign
-            ax.append(z3.Implies(z3.And(same_p, b1 > 0, b2 > 0, p1 > 0, b1 < b2), L[i] < L[j]))
-            ax.append(z3.Implies(z3.And(same_p, b1 > 0, b2 > 0, p1 > 0, b1 > b2), L[i] > L[j]))
+            ax.append(z3.Implies(z3.And(same_p, b1 >= 0, b2 >= 0, p1 > 0, b1 < b2), L[i] < L[j]))
+            ax.append(z3.Implies(z3.And(same_p, b1 >= 0, b2 >= 0, p1 > 0, b1 > b2), L[i] > L[j]))
             ax.append(z3.Implies(z3.And(same_p, b1 > 0, b2 > 0, p1 < 0, b1 < b2), L[i] > L[j]))
             ax.append(z3.Implies(z3.And(same_p, b1 > 0, b2 > 0, p1 < 0, b1 > b2), L[i] < L[j]))
             ax.append(z3.Implies(z3.And(same_p, b1 == b2), L[i] == L[j]))
